@@ -88,8 +88,8 @@ def homogenization_part(ctx):
         raise MachineryError("binding self-test failed: corrupted homogenization trace accepted")
     for c, (ev, info), v in zip(cfgs, results, reached):
         ctx.replayed += info["steps"]
-        ctx.case(c["tag"], nontrivial=info["moved"] > 1e-6, sample={"config": c, "info": info} if len(ctx.samples) < 4 else None)
-        if info["moved"] <= 1e-6:
+        ctx.case(c["tag"], nontrivial=info["moved"] > 1e-6 or bool(c.get("still")), sample={"config": c, "info": info} if len(ctx.samples) < 4 else None)
+        if info["moved"] <= 1e-6 and not c.get("still"):
             raise MachineryError("vacuity: homogenization run %s did not change the profile" % c["tag"])
         if v["l"] != len(ev) + 1:
             ctx.violation("homog-model:trace-not-consumed", "run %s not consumed" % c["tag"], {"config": c})
